@@ -14,7 +14,7 @@ grep -q "crates/srtla-core/tests" demo/README.md 2>/dev/null && DEST=crates/srtl
 PKG=""
 [ "$DEST" = crates/srtla-protocol/tests ] && PKG="-p srtla-protocol"
 [ "$DEST" = crates/srtla-core/tests ] && PKG="-p srtla-core --features test-internals"
-git stash -q -- . ':!patch.diff' ':!demo' ':!meta.json' ':!PROPERTY.txt' 2>/dev/null
+# (no git stash: the stash is shared by all worktrees of a repository)
 git checkout -q -- . 2>/dev/null
 git apply --check patch.diff || { echo "CONFIRM: patch does not apply to the clean tree"; exit 1; }
 mkdir -p "$DEST"; cp "$DEMO" "$DEST/"
